@@ -16,6 +16,9 @@ def trimExtClass (s : Str) : String :=
   match extension s, fileName s with
   | some _, some n => if n.isSuffixOf s then "-" else "trim_ext_trailing_sep"
   | _, _ => "-"
+def commonLen : List Str → List Str → Nat
+  | a :: as, b :: bs => if a = b then commonLen as bs + 1 else 0
+  | _, _ => 0
 def okBool (b : Bool) : String := "ok " ++ showBool b
 
 /-- One request → "model \t spec \t class".  `-` = no functional spec / in-domain. -/
@@ -63,6 +66,16 @@ def pathFn (fn : String) (args : List String) : Option String :=
   | "trim_prefix", [a, b] => do let s ← strOfArg a; let t ← strOfArg b; pure (line3 (showOptStr (trimPrefixO s t)) (okStr (Spec.trimPrefixSpec s t)) "-")
   | "trim_suffix", [a, b] => do let s ← strOfArg a; let t ← strOfArg b; pure (line3 (showOptStr (trimSuffixO s t)) (okStr (Spec.trimSuffixSpec s t)) "-")
   | "relative", [a, b] => do let s ← strOfArg a; let t ← strOfArg b; pure (line3 (okStr (relative s t)) "-" "-")
+  | "relnav", [a, b] => do
+    let p ← strOfArg a; let bb ← strOfArg b
+    let r := relative p bb
+    let nav := match cleanO (push bb r) with | some x => x | none => []
+    -- spec (for clean absolute p, b): `..` per component of b below the common prefix, then the
+    -- components of p below it; and the navigation must end at p
+    let ps := (splitSlash p).filter (· ≠ []); let bs := (splitSlash bb).filter (· ≠ [])
+    let k := commonLen ps bs
+    let shape := if ps = bs then p else Str.joinWith '/' (List.replicate (bs.length - k) ['.', '.'] ++ ps.drop k)
+    pure (line3 ("ok " ++ showList [r, nav]) ("ok " ++ showList [shape, p]) "-")
   | "expand", [a, e] => do
     let s ← strOfArg a; let env ← envOfArg e
     pure (line3 (showOutcome showStr (expand (envLookup env) s)) "-" "-")
